@@ -41,29 +41,6 @@ theorem inherited_names_all (A : List Str) (tree : List Stmt) :
   have f := run_facts A 0 [] tree St.init
   exact ⟨by simpa [St.init] using f.inh, by simpa [St.init] using f.dirs⟩
 
-theorem definedFuncs_eq (tree : List Stmt) : definedFuncs tree = (flat [] tree).flatMap defsOf := by
-  unfold definedFuncs
-  congr 1
-
-theorem mem_insertSorted (x y : Str) (l : List Str) : x ∈ insertSorted y l ↔ x = y ∨ x ∈ l := by
-  induction l with
-  | nil => simp [insertSorted]
-  | cons z zs ih =>
-    simp only [insertSorted]
-    split
-    · simp only [List.mem_cons, ih]
-      constructor
-      · rintro (h | h | h) <;> simp [h]
-      · rintro (h | h | h) <;> simp [h]
-    · simp
-
-theorem mem_sortStrs (x : Str) (l : List Str) : x ∈ sortStrs l ↔ x ∈ l := by
-  induction l with
-  | nil => simp [sortStrs]
-  | cons y ys ih =>
-    have : sortStrs (y :: ys) = insertSorted y (sortStrs ys) := rfl
-    rw [this, mem_insertSorted, ih]; simp
-
 /-- **DEFINED_PHASES lists exactly the phase functions the ebuild or its eclasses define** (a function
 defined by `EXPORT_FUNCTIONS` counts), `-` (the empty list) exactly when there is none -/
 theorem defined_phases_exact (e : EapiInfo) (tree : List Stmt) (p : Str) :
